@@ -134,6 +134,8 @@ struct Step {
     now: u64,
     /// fetch in flight to that peer before the event
     inflight_before: Option<(usize, packed::Byte32)>,
+    /// the event delivered the next honest answer out of the peer's queue (not a copy or a replay)
+    fifo: bool,
 }
 
 #[derive(Default)]
@@ -330,6 +332,7 @@ impl<'a> Model for FsmModel<'a> {
             }
             Ev::Deliver(p) => {
                 self.track.borrow_mut().step.peer = Some(*p);
+                self.track.borrow_mut().step.fifo = true;
                 if let Some(i) = sim.queue.iter().position(|m| m.peer == *p) {
                     let m = sim.queue.remove(i).unwrap();
                     self.deliver(sim, m);
@@ -562,6 +565,24 @@ impl<'a> Model for FsmModel<'a> {
                             "proof-accepted-without-matching-request".into(),
                             format!("peer {}: prove state became {:#x} in {} (outstanding request: {:?}, received {:?})", p, ap, NAMES[bs.variant as usize], bs.req.as_ref().map(|h| format!("{:#x}", h)), recv.as_ref().map(|r| (&r.0, format!("{:#x}", r.1)))),
                         ));
+                    }
+                }
+            }
+            // ---- a response ends its request: when the honest answer to the outstanding proof
+            // request arrives (whatever the peer announced meanwhile), the request does not stay
+            // on record - the proof is accepted, or the client asked again in this very event
+            // (re-check, new tip); otherwise the answered request would end in the message timeout
+            if step.fifo {
+                if let Some((k, h, _, empty)) = &recv {
+                    if k == "SendLastStateProof" && !*empty && bs.req.as_ref() == Some(h) {
+                        let accepted = as_.prove.as_ref() == Some(h);
+                        let asked_again = step.sent.iter().any(|(q, k)| *q == p && k == "GetLastStateProof");
+                        if !accepted && !asked_again {
+                            bad.push((
+                                format!("answered-request-stays-outstanding/{}", NAMES[bs.variant as usize]),
+                                format!("peer {} in {}: the honest answer to the outstanding proof request for {:#x} was delivered, the peer was neither banned nor asked again, but the proof was not accepted (prove state {:?}, request still {:?}, last state {:?}): the answered request can only end in the message timeout", p, NAMES[bs.variant as usize], h, as_.prove.as_ref().map(|x| format!("{:#x}", x)), as_.req.as_ref().map(|x| format!("{:#x}", x)), as_.last.as_ref().map(|x| format!("{:#x}", x))),
+                            ));
+                        }
                     }
                 }
             }
